@@ -231,6 +231,18 @@ type jop struct {
 func propC10(run *Run, n int) {
 	run.rule = "p = RenderPatch(a.Diff(b)) rendered hunk by hunk, and subset-preserving variations (changed values in matching test/remove pairs, indices shifted consistently across a hunk, dropped hunks, dropped context tests, '-' append) and respell-token (a reference token respelled outside the RFC 6901 grammar: index N as 0N, +N, -N, 00N, 00; '-' as -1; a key with an invalid ~ escape; a member renamed — in patch and documents — to a number-like name 007, 01, -1, +1, -0 so that it reaches an object) and malformed-op (the patch DOCUMENT damaged: an op without value / path / op, member names in another letter case, an extra Value / PATH / Op member with another content next to the exact one, an exact member written twice, a non-object element, the texts null, {}, [null], [[]], \"x\") x targets (a, b, perturbations); non-trivial = jd reads and applies the patch; distinct = distinct (patch text, target)"
 	r := NewRng(run.Seed)
+	// fixed: a context test on the slot ONE PAST THE END of the array after the edit (RFC 6902: the test fails; jd must not
+	// apply), at the root, below a key, after a removal
+	for _, w := range []struct{ doc *Val; patch string }{
+		{VArr(), `[{"op":"test","path":"/0","value":"c"},{"op":"add","path":"/0","value":"x"}]`},
+		{VObj("k", VArr(VStr("a"))), `[{"op":"test","path":"/k/0","value":"a"},{"op":"test","path":"/k/1","value":"q"},{"op":"add","path":"/k/1","value":"x"}]`},
+		{VArr(VStr("a"), VStr("b")), `[{"op":"test","path":"/0","value":"a"},{"op":"test","path":"/2","value":"zz"},{"op":"test","path":"/1","value":"b"},{"op":"remove","path":"/1","value":"b"}]`},
+		{VArr(VStr("b")), `[{"op":"test","path":"/1","value":"zz"},{"op":"test","path":"/0","value":"b"},{"op":"remove","path":"/0","value":"b"},{"op":"add","path":"/0","value":"y"}]`},
+		{VArr(VStr("a")), `[{"op":"test","path":"/0","value":"a"},{"op":"add","path":"/1","value":"x"}]`},
+	} {
+		run.Count("variation:context-past-the-end")
+		addC10Case(run, "context-past-the-end", w.patch, w.doc, w.doc, w.doc)
+	}
 	// consecutive `-` appends to ONE array that is NOT the root (below keys / indices), two to four values: RFC 6902
 	// appends them in document order
 	for i := 0; i < n/60+8; i++ {
